@@ -35,12 +35,65 @@ def _index_names(cfg, du) -> set:
     return out
 
 
-def _is_change_test(t: ast.AST, index_vars):
+def change_tests(cfg, du, index_vars):
+    """id(test expression) -> label of the edge meaning 'changed', for every comparison of the function that compares
+    object identities (also when an identity was first stored in a local: `new_entry = (mode, b.id)` ...
+    `tree[name] == new_entry`).  Covers test atoms and comparisons stored in boolean temporaries."""
+    out = {}
+    for n in cfg.stmt_nodes():
+        for e in n.exprs():
+            for x in ast.walk(e):
+                if isinstance(x, ast.Compare) and id(x) not in out:
+                    lab = _is_change_test(x, index_vars, du, n)
+                    if lab:
+                        out[id(x)] = lab
+    return out
+
+
+def _pure_identity(e) -> bool:
+    """An object id, or a display of constants and object ids (a tree entry `(mode, blob.id)`): equal iff the content
+    is equal.  A record that also carries volatile fields (an index entry built from stat()) is not."""
+    if isinstance(e, ast.Attribute) and e.attr in ("id", "sha"):
+        return True
+    if isinstance(e, (ast.Tuple, ast.List)) and e.elts:
+        has = False
+        for x in e.elts:
+            if _pure_identity(x):
+                has = True
+            elif not _constantish(x):
+                return False
+        return has
+    return False
+
+
+def _constantish(e) -> bool:
+    if isinstance(e, ast.Constant):
+        return True
+    if isinstance(e, ast.BinOp):
+        return _constantish(e.left) and _constantish(e.right)
+    if isinstance(e, ast.Attribute):
+        return (dotted(e) or "").split(".")[0] in ("stat",)       # stat.S_IFREG
+    return False
+
+
+def _mentions_id(du, node, e) -> bool:
+    from ..dataflow import origins
+    for x in ast.walk(e):
+        if isinstance(x, ast.Attribute) and x.attr in ("id", "sha"):
+            return True
+        if isinstance(x, ast.Name) and du is not None and node is not None:
+            for o in origins(du, node, x):
+                if o.leaf is not None and o.leaf is not x and _pure_identity(o.leaf):
+                    return True
+    return False
+
+
+def _is_change_test(t: ast.AST, index_vars, du=None, node=None):
     """-> label of the edge meaning 'changed', or None."""
     if not (isinstance(t, ast.Compare) and len(t.ops) == 1):
         return None
     op = t.ops[0]
-    has_id = any(isinstance(x, ast.Attribute) and x.attr in ("id", "sha") for x in ast.walk(t))
+    has_id = _mentions_id(du, node, t)
     names = {x.id for x in ast.walk(t) if isinstance(x, ast.Name)}
     if isinstance(op, (ast.NotEq, ast.Eq)) and (has_id or any("id" in n.lower() or "sha" in n.lower() for n in names)):
         return "t" if isinstance(op, ast.NotEq) else "f"
@@ -59,7 +112,8 @@ def commit_guard_obligations(ctx):
         if not commits:
             raise AnalysisError("%s._import_one: no _commit_tree call" % cq)
         index_vars = _index_names(cfg, du)
-        tests = [(n, _is_change_test(n.ast, index_vars)) for n in cfg.nodes if n.kind == "test"]
+        ctests = change_tests(cfg, du, index_vars)
+        tests = [(n, ctests.get(id(n.ast))) for n in cfg.nodes if n.kind == "test"]
         tests = [(n, lab) for n, lab in tests if lab]
         blocked = [(n, m, l) for n, lab in tests for m, l in n.succ if l == lab]
         r = cfg.reachable([cfg.entry], block_edges=blocked)
@@ -68,8 +122,8 @@ def commit_guard_obligations(ctx):
             # assumed to say 'unchanged' and see whether a commit is still reachable
             from .common import const_walk
 
-            def decide(t_, _iv=index_vars):
-                lab = _is_change_test(t_, _iv)
+            def decide(t_, _ct=ctests):
+                lab = _ct.get(id(t_))
                 if lab is None:
                     return None
                 return lab == "f"       # 'changed' is the f edge  <=>  the test is True when unchanged
@@ -78,8 +132,7 @@ def commit_guard_obligations(ctx):
                 r = set(const_walk(cfg, [cfg.entry], {}, decide=decide, follow_exc=True))
             except AnalysisError:
                 pass
-            has_tests = bool(tests) or any(_is_change_test(x, index_vars) for n_ in cfg.stmt_nodes() if n_.ast is not None
-                                           for x in ast.walk(n_.ast) if isinstance(x, ast.Compare))
+            has_tests = bool(tests) or bool(ctests)
         else:
             has_tests = bool(tests)
         for c in commits:
